@@ -16,12 +16,12 @@ def intake(wt, prop, name):
     sh("git diff -- aiohomekit > patch.diff", cwd=wt)
     r_suite = sh("/venv/bin/python -m pytest -q -p no:cacheprovider --timeout=900 2>&1 | tail -3", cwd=wt, env=env)
     suite_ok = " passed" in r_suite.stdout and "failed" not in r_suite.stdout
-    run_demo = f"/venv/bin/python -m pytest -q -p no:cacheprovider {demo} 2>&1 | tail -3" if "def test_" in open(os.path.join(wt, demo)).read() else f"/venv/bin/python {demo} 2>&1 | tail -3; exit ${{PIPESTATUS[0]}}"
-    r_with = sh(f"bash -c '{run_demo}'", cwd=wt, env=env)
+    run_demo = f"/venv/bin/python -m pytest -q -p no:cacheprovider {demo}" if "def test_" in open(os.path.join(wt, demo)).read() else f"/venv/bin/python {demo}"
+    r_with = sh(run_demo, cwd=wt, env=env)
     sh("git checkout -- aiohomekit", cwd=wt)
-    r_without = sh(f"bash -c '{run_demo}'", cwd=wt, env=env)
+    r_without = sh(run_demo, cwd=wt, env=env)
     sh("git apply patch.diff", cwd=wt)
-    def failed(r): return r.returncode != 0 or "failed" in r.stdout or "error" in r.stdout.lower() and "passed" not in r.stdout
+    def failed(r): return r.returncode != 0
     ok = suite_ok and failed(r_with) and not failed(r_without)
     print("suite with change:", r_suite.stdout.strip().splitlines()[-1] if r_suite.stdout.strip() else r_suite.stderr[-200:])
     print("demo with change  :", "FAILS" if failed(r_with) else "passes", "|", r_with.stdout.strip().splitlines()[-1:] )
